@@ -121,14 +121,16 @@ namespace ip {
 		m_queue.erase(m_queue.begin());
 
 		// once the handler is called, it's possible the last reference keeping
-		// this object (basic_resolver) alive is released and we're deleted. Make
-		// sure to not touch any members after the handler in that case.
-		bool const empty = m_queue.empty();
+		// this object (basic_resolver) alive is released and we're deleted, or
+		// that the queue is changed by cancel() or another async_resolve(). Make
+		// sure to not touch any members after the handler; wait for the next
+		// lookup before calling it.
+		if (!m_queue.empty())
+		{
+			m_timer.expires_at(m_queue.front().completion_time);
+			m_timer.async_wait(aux::make_malloc(std::bind(&basic_resolver::on_lookup, this, _1)));
+		}
 		v.handler(v.err, std::move(v.ips));
-		if (empty) return;
-
-		m_timer.expires_at(m_queue.front().completion_time);
-		m_timer.async_wait(aux::make_malloc(std::bind(&basic_resolver::on_lookup, this, _1)));
 	}
 
 	template<typename Protocol>
